@@ -1785,8 +1785,13 @@ class ContentFile(File):
 
     def _calc_hash(self) -> str:
         # Use filesystem.open() to avoid triggering a recursive hash update.
-        with self.filesystem.open(self.path, mode="rb") as infile:
-            content_hash = hash_stream(infile)
+        try:
+            with self.filesystem.open(self.path, mode="rb") as infile:
+                content_hash = hash_stream(infile)
+        except FileNotFoundError:
+            # A missing file has a deterministic hash (compare LocalFileSystem.get_hash),
+            # so that is_valid() of a deleted file is False instead of raising.
+            return hash_struct([self.type_basename, self.path, -1])
         return hash_struct([self.type_basename, self.path, content_hash])
 
 
